@@ -209,6 +209,15 @@ Definition fl_C11 := {| f_val := false; f_exn := true; f_field := true; f_allowe
 Definition fl_C14 := {| f_val := true; f_exn := false; f_field := false; f_allowed := false;
                         f_ids := false; f_ctx := false; f_nested := false; f_depth := false |}.
 
+(* C13: results / exceptions of each calling style, stored state, allowed_events, callbacks run *)
+Definition fl_C13 := {| f_val := true; f_exn := true; f_field := true; f_allowed := true;
+                        f_ids := true; f_ctx := false; f_nested := false; f_depth := false |}.
+Definition verdict_C13 := verdict_with fl_C13.
+(* a direct assertion made by the driver (1 = it held) *)
+Definition verdict_C13_any (c : case + nat) : nat :=
+  match c with inl k => verdict_C13 k | inr 1 => 0 | inr _ => 2 end.
+Definition wfc (k : case) : case + nat := inl k.
+Definition asserted (n : nat) : case + nat := inr n.
 Definition verdict_all := verdict_with fl_all.
 Definition verdict_C01 := verdict_with fl_C01.
 Definition verdict_C02 := verdict_with fl_C02.
